@@ -786,6 +786,8 @@ func (em *emitter) emitSelect(selectNode *ast.Select) {
 	for i, cas := range selectNode.Cases {
 		// Make the previous 'goto' point here.
 		em.fb.setLabelAddr(casesLabel[i])
+		// Each clause is an implicit block.
+		em.fb.enterScope()
 		// Emit an assignment if it is a receive case with an assignment.
 		if assignment, isAssignment := cas.Comm.(*ast.Assignment); isAssignment {
 			receiveExpr := assignment.Rhs[0].(*ast.UnaryOperator)
@@ -813,6 +815,7 @@ func (em *emitter) emitSelect(selectNode *ast.Select) {
 		}
 		// Emit the nodes of the body of the case.
 		em.emitNodes(cas.Body)
+		em.fb.exitScope()
 		// All 'case' bodies jump to the end of the 'select' bodies, except for the last one.
 		if i < len(selectNode.Cases)-1 {
 			em.fb.emitGoto(casesEnd)
